@@ -273,6 +273,22 @@ def run(ctx, load):
     ctx.floors.pop(('C06.del-finalises', 'ngc'), None)
     ctx.floor('C18.ngc-del', 3)
     ctx.config = 'default'
+    # optimisation level: a conservative stack scan sees a pointer that lives only in a callee-saved register at -O2 only
+    # if the registers are spilled into a frame the scan covers (setjmp into a local jmp_buf) before the scan starts
+    from .rules_c01 import check_mark_phase
+    Pg = load(['src/GC.c'], 'default')
+    before = len(ctx.obs)
+    check_mark_phase(Pg, ctx)
+    keep = []
+    for o in ctx.obs[before:]:
+        if o['key'] == 'GC_Mark:phases':
+            o['rule'] = 'C18.registers-spilled-before-scan'
+            keep.append(o)
+    ctx.obs[before:] = keep
+    for k in list(ctx.floors):
+        if k[0].startswith('C01.'):
+            ctx.floors.pop(k)
+    ctx.floor('C18.registers-spilled-before-scan', 1)
 
 
 EXPLANATION = (
@@ -283,4 +299,4 @@ EXPLANATION = (
     'checked against the scan, and no cache word is read elsewhere; (c) ngc-regions — collector-only code only registers with / creates / '
     'tears down the collector, and without it deletion finalises directly; (d) layout-all-configs — the offset-agreement rules of Table, '
     'Tree, object headers and type records re-evaluated under each configuration\'s header layout (quick: default + NDEBUG, thorough: all '
-    '8), plus compile-time witnesses under all 8. Not decided: optimisation levels, undefined behaviour outside the rules above.')
+    '8), plus compile-time witnesses under all 8. (e) registers-spilled-before-scan — every collection spills the registers (setjmp into a local buffer) after the root scan and before the stack scan, the one optimisation-level dependence of the collector that is visible in the shape of the code. Not decided: other optimisation-level effects, undefined behaviour outside the rules above.')
